@@ -28,7 +28,7 @@ def main():
     rep = V.Report(CID, "proof")
     V.build_gatery()
     harness = V.build_harness("C01_design")
-    V.build_harness("C06_retime")
+    V.build_harness("C06_retime"); V.build_model("NM")
     driver = V.build_model("C01", name="C01")
     if "--build-only" in sys.argv:
         sys.exit(0)
@@ -185,8 +185,10 @@ def main():
 
     import C11b
     rviol, rbroken = C11b.run(rep, strict_diff)
-    broken += rbroken
-    for v in rviol[:4]:
+    mviol, mbroken = C11b.run_mem(rep, strict_diff)
+    rviol = rviol[:4] + mviol[:3]
+    broken += rbroken + mbroken
+    for v in rviol:
         rep.violation(dict(property=CID, broken=broken, **v), tag="retimed")
     seen = set()
     for l, real, ia, ib, stim in confirmed:
